@@ -88,8 +88,41 @@ def drop_constraint(program, cid):
     return p
 
 
-def shrink(program, still_fails, max_steps=40):
-    """Greedy removal of constraints while `still_fails(program)` holds."""
+def droppable_factors(program):
+    used_c = set()
+    for b in program["blocks"]:
+        used_c.update(b.get("constraints", []))
+    pinned = set()
+    for b in program["blocks"]:
+        for c in ([b.get("crossing", [])] + b.get("crossings", [])):
+            pinned.update(c)
+    for c in program.get("constraints", []):
+        if c["id"] in used_c:
+            if "level" in c:
+                pinned.add(c["level"][0])
+            if "factor" in c:
+                pinned.add(c["factor"])
+            pinned.update(c.get("factors", []))
+    in_design = set()
+    for b in program["blocks"]:
+        in_design.update(b.get("design", []))
+    for f in program["factors"]:
+        if f["kind"] == "derived" and f["id"] in in_design:
+            pinned.update(f["window"]["deps"])
+    return [f for f in in_design if f not in pinned]
+
+
+def drop_factor(program, fid):
+    import copy
+    p = copy.deepcopy(program)
+    for b in p["blocks"]:
+        if "design" in b:
+            b["design"] = [f for f in b["design"] if f != fid]
+    return p
+
+
+def shrink(program, still_fails, max_steps=60):
+    """Greedy removal of constraints and unused design factors while `still_fails(program)` holds."""
     cur = program
     steps = 0
     changed = True
@@ -98,8 +131,8 @@ def shrink(program, still_fails, max_steps=40):
         used = []
         for b in cur["blocks"]:
             used += b.get("constraints", [])
-        for cid in used:
-            cand = drop_constraint(cur, cid)
+        cands = [drop_constraint(cur, cid) for cid in used] + [drop_factor(cur, f) for f in droppable_factors(cur)]
+        for cand in cands:
             steps += 1
             try:
                 if still_fails(cand):
@@ -113,7 +146,20 @@ def shrink(program, still_fails, max_steps=40):
 
 def features(program):
     feats = []
+    in_design = set()
+    for b in program["blocks"]:
+        in_design.update(b.get("design", []))
+    crossed = set()
+    for b in program["blocks"]:
+        for c in ([b.get("crossing", [])] + b.get("crossings", [])):
+            crossed.update(c)
     for f in program["factors"]:
+        if f["id"] not in in_design:
+            continue
+        if f["kind"] == "derived" and f["id"] in crossed:
+            feats.append("crossed-" + f["window"]["type"])
+        if f["kind"] == "simple" and any(w != 1 for _, w in f["levels"]):
+            feats.append("weighted-crossed" if f["id"] in crossed else "weighted-uncrossed")
         if f["kind"] == "derived":
             feats.append(f["window"]["type"])
         if f["kind"] == "simple" and any(w != 1 for _, w in f["levels"]):
@@ -122,4 +168,5 @@ def features(program):
 
 
 def signature(prefix, program):
-    return "%s:%s:%s" % (prefix, shape(program), "+".join(constraint_kinds(program)) or "none")
+    return "%s:%s:%s:%s" % (prefix, shape(program), "+".join(constraint_kinds(program)) or "none",
+                            "+".join(features(program)) or "plain")
